@@ -108,6 +108,9 @@ def e2(ctx, F):
                 if b == ("lit", sign) and a[0] == "call" and str(a[1]).endswith(("get_unchecked", "index")) and len(a[2]) == 2:
                     tab, idx = a[2]
                     tab_ok = tab in (("call", "std::cell::Cell::<T>::get", (("index", ("var", "scores"), ("lit", k)),)),)
+                    # the tables of every kind but the king never change: reading the constant of that kind is the same table
+                    if not tab_ok and kind != "King":
+                        tab_ok = tab == ("const", "chess::scores::" + TABLE_ORDER[k])
                     want_row = ("bin", "-", ("lit", 7), ROW) if owner == "White" else ROW
                     idx_ok = idx == ("call", "chess::position::Position::as_usize",
                                      (("call", "chess::position::Position::new_unsafe", (want_row, COL)),)) or \
